@@ -597,6 +597,9 @@ UModeLetter(S, c, acc, ltr, sign) ==
               THEN IF other \in u.modes
                    THEN [acc EXCEPT !.u.modes = u.modes \ {ltr}]     \* DEVIATION: not echoed
                    ELSE [acc EXCEPT !.u.modes = u.modes \ {ltr}, !.oper = acc.oper - 1, !.unset = acc.unset \o ltr]
+              ELSE IF ltr = "O" /\ "o" \in u.modes
+              THEN (* DEVIATION: -O from a user holding only +o drops +o (upstream behaviour) *)
+                   [acc EXCEPT !.u.modes = u.modes \ {"o"}, !.oper = acc.oper - 1, !.unset = acc.unset \o "O"]
               ELSE acc
 
 RECURSIVE UModeGroupAt(_, _, _, _, _, _)
